@@ -859,7 +859,13 @@ func ruleYearRange(c *Ctx, r *Rep) {
 			if hc, isCall := g.Cond.(*ssa.Call); isCall && g.Truth {
 				if hf := hc.Call.StaticCallee(); hf != nil && c.InModule(hf) && hf.Blocks != nil && len(hf.Params) == 1 && len(hc.Call.Args) == 1 {
 					if lb, ub, okB := yearBoundsOfHelper(c, hf); okB {
-						if f := fieldLoad(hc.Call.Args[0]); f != nil {
+						arg := hc.Call.Args[0]
+						if yc, isYear := arg.(*ssa.Call); isYear && calleeFullName(yc) == "(time.Time).Year" {
+							arg = yc.Call.Args[0] // a helper over the year itself
+						} else if !typeIs(arg.Type(), "time", "Time") {
+							continue
+						}
+						if f := fieldLoad(arg); f != nil {
 							b := bounds[f.Name()]
 							if b == nil {
 								b = &bnd{}
@@ -934,7 +940,7 @@ func ruleYearRange(c *Ctx, r *Rep) {
 	}
 }
 
-var reYearCmp = regexp.MustCompile(`^(<|<=|>|>=)\(\(time\.Time\)\.Year\(P\$0\) ; K\((-?\d+)\)\)$`)
+var reYearCmp = regexp.MustCompile(`^(<|<=|>|>=)\((?:\(time\.Time\)\.Year\(P\$0\)|P\$0) ; K\((-?\d+)\)\)$`)
 
 // yearBoundsOfHelper: for a boolean module function of one time.Time parameter, the bounds lb <= t.Year() <= ub that
 // hold on every path on which it answers true (ok is false when some such path leaves a side open).
